@@ -516,11 +516,20 @@ def op_back(ctx, add, label, rt, site):
     add('RB.1', ok, f'{label} {rt}: back() is logical element size-1', site, '' if ok else f'back() yields {r}', key='RB.1|back')
 
 
+def as_logical(ctx, p):
+    """logical [lo, hi) of a range event on this buffer's own storage, or None"""
+    tgt, lo, hi = p[2], p[3], p[4]
+    if tgt == ('logical', 'this'): return lo, hi
+    if tgt[0] == 'mod' and tgt[1] == 'data0': return lo - Lin.sym('P'), hi - Lin.sym('P')
+    return None
+
+
 def op_dtor(ctx, add, label, rt, site):
     S_ = Lin.sym('S')
     rg = [(n, p) for n, p in ctx.ev if p[0] == 'range' and p[1] == 'destroy']
     fr = [(n, p) for n, p in ctx.ev if p[0] == 'free']
-    ok = len(rg) == 1 and rg[0][1][2] == ('logical', 'this') and rg[0][1][3] == Lin.const(0) and ctx.eq(rg[0][1][4], S_)
+    lg = as_logical(ctx, rg[0][1]) if len(rg) == 1 else None
+    ok = lg is not None and ctx.eq(lg[0], Lin.const(0)) and ctx.eq(lg[1], S_)
     add('RB.8', ok, f'{label}: destroys logical [0, size)', rg[0][0].shortloc() if rg else site, '' if ok else f'destructor destroys {[(p[2], str(p[3]), str(p[4])) for n, p in rg]}: ' + ('elements stay alive' if not rg else 'slots holding no element are destroyed / live ones are skipped'), key='RB.8|dtor-range')
     ok = len(fr) == 1 and isinstance(fr[0][1][1], Ptr) and fr[0][1][1].base == 'data0' and (not rg or ctx.P.events.index(('c', fr[0][0], fr[0][1])) > ctx.P.events.index(('c', rg[0][0], rg[0][1])))
     add('RB.8', ok, f'{label}: frees the storage after destroying the elements', fr[0][0].shortloc() if fr else site, '' if ok else 'storage is not freed exactly once after the elements', key='RB.8|dtor-free')
@@ -556,9 +565,8 @@ def ownership(ctx, add, label, rt, site, opname):
     ok = False
     if destroyed:
         d = destroyed[0]
-        lo, hi = d[3], d[4]
-        if d[2][0] == 'mod': lo, hi = lo - Lin.sym('P'), hi - Lin.sym('P')
-        ok = ctx.eq(lo, k) and ctx.eq(hi, S_)
+        lg = as_logical(ctx, d)
+        ok = lg is not None and ctx.eq(lg[0], k) and ctx.eq(lg[1], S_)
     else:
         ok = ctx.eq(k, S_)
     add('RB.8', ok, f'{label} {rt}: every element of the old block is relocated ([0, {k})) or destroyed before the block is freed', site,
@@ -588,7 +596,8 @@ def op_copy_assign(ctx, add, label, rt, site):
     ownership(ctx, add, label, rt, site, 'copy-assign')
     if ctx.is_class and not ctx.f.d.get('ctor'):
         dg = [(n, p) for n, p in ctx.ev if p[0] == 'range' and p[1] == 'destroy']
-        okd = len(dg) == 1 and dg[0][1][2] == ('logical', 'this') and dg[0][1][3] == Lin.const(0) and ctx.eq(dg[0][1][4], Lin.sym('S'))
+        lg = as_logical(ctx, dg[0][1]) if len(dg) == 1 else None
+        okd = lg is not None and ctx.eq(lg[0], Lin.const(0)) and ctx.eq(lg[1], Lin.sym('S'))
         add('RB.8', okd, f'{label} {rt}: the elements being replaced are destroyed once', dg[0][0].shortloc() if dg else site, '' if okd else 'the old elements are not destroyed (exactly once) before they are replaced', key='RB.8|copy-assign|destroy')
 
 
@@ -693,8 +702,8 @@ def op_resize(ctx, add, label, rt, site):
         fr = [(n, p) for n, p in ctx.ev if p[0] == 'free']
         cut = ctx.sign(S_ - N) == 1
         if cut:
-            okd = len(dg) == 1 and dg[0][1][2][0] in ('mod',) and ctx.cong(dg[0][1][3], P_ + N) and ctx.cong(dg[0][1][4], P_ + S_)
-            if len(dg) == 1 and dg[0][1][2] == ('logical', 'this'): okd = ctx.eq(dg[0][1][3], N) and ctx.eq(dg[0][1][4], S_)
+            lg = as_logical(ctx, dg[0][1]) if len(dg) == 1 else None
+            okd = lg is not None and ctx.eq(lg[0], N) and ctx.eq(lg[1], S_)
             add('RB.7', okd, f'{label} {rt}: exactly the cut-off logical tail [n, size) is destroyed', dg[0][0].shortloc() if dg else site,
                 '' if okd else (f'destroys {[(p[2][0], str(p[3]), str(p[4])) for n, p in dg] or "nothing"}, the cut-off elements are logical [n, size) = physical [(P+n) mod C, …)'), key='RB.7|resize-tail')
             if dg and fr:
